@@ -62,6 +62,10 @@ func strArg(v Value) *Term {
 		return x
 	case BytesOf:
 		return x.s
+	case Slice:
+		if t, ok := byteSliceTerm(x); ok {
+			return t
+		}
 	}
 	panic(fmt.Sprintf("expected string-like, got %T", v))
 }
@@ -1367,4 +1371,17 @@ func (p *Path) splitString(s, sep *Term) (Value, bool) {
 	}
 	fields = append(fields, mkConcat(cur...))
 	return Slice{data: fields}, true
+}
+
+// byteSliceTerm: a real slice whose elements are byte values, as a string term.
+func byteSliceTerm(s Slice) (*Term, bool) {
+	parts := []*Term{}
+	for _, e := range s.data {
+		t, ok := e.(*Term)
+		if !ok || t.Sort != SInt {
+			return nil, false
+		}
+		parts = append(parts, mkFromCode(t))
+	}
+	return mkConcat(parts...), true
 }
